@@ -37,6 +37,7 @@ TECHNIQUE += '; names bound in the namespace that serves as synthesis registry'
 TECHNIQUE += '; the generated model module declares no class named like a builtin type (C07.R7, whole generate_model interpreted)'
 TECHNIQUE += '; no process-wide memo in the object-model modules (R10 = C10.R3)'
 LEVEL_TEXT += " Added clause: only synthesized classes answer for a rule type (known finding for the module's own names)."
+LEVEL_TEXT += ' Added clauses (rounds 9-11): NodeWalker.walk reaches nodes packed in lists, tuples and dicts; the generated module declares no class named like a builtin; no process-wide memo in the object-model modules.'
 LEVEL_NOTE = 'Eager interpretation of generators (a generator call whose values are not consumed contributes nothing, as in Python).'
 EXPLANATION = ('Static analysis of /repo sources, TatSu not imported. The dfs inside Node._cached_children is interpreted by the '
                'whitelisted evaluator; walkers are checked structurally.')
